@@ -416,7 +416,12 @@ def gen_tree(rnd, size, d, signed_ops=True):
                 r = ["reg", "rot%d" % size, size]  # valuation is drawn < width
         elif op in SHIFTS and rnd.random() < 0.6:
             amts = [0, 1, size - 1, size, size + 1, 2 * size, rnd.randrange(2 * size + 2), M(size)]
-            r = ["cst", amts[rnd.randrange(len(amts))] & M(size), size]
+            if rnd.random() < 0.25:
+                # the amount has its own width (a count register / immediate narrower or wider than the operand)
+                w2 = 8 if size != 8 else 5
+                r = ["cst", amts[rnd.randrange(len(amts))] & M(w2), w2]
+            else:
+                r = ["cst", amts[rnd.randrange(len(amts))] & M(size), size]
         elif op in SHIFTS and rnd.random() < 0.6:
             r = ["reg", "sh%d" % size, size]  # dedicated amount register, valuation biased to boundary amounts
         else:
